@@ -56,8 +56,9 @@ def text(s, subs=()):
 class Defective:
     """Builds the request for a carrier state with the given flags (dict name -> z3 Bool or False)."""
 
-    def __init__(self, m, ctx, carrier, flags, date_header=True, key=bytes(32)):
+    def __init__(self, m, ctx, carrier, flags, date_header=True, key=bytes(32), sig_variant=None):
         self.m, self.ctx, self.carrier, self.f = m, ctx, carrier, flags
+        self.sig_variant = sig_variant      # None | 'sig-long' | 'sig-short' | 'sig-empty': a presented signature of another length (always wrong)
         f = lambda n: flags.get(n, False)
         self.key = key
         # ---- good variant, concretely signed (and registered in the oracle so symbolic re-computations link up)
@@ -89,6 +90,12 @@ class Defective:
         path = text('/p%41', [(4, f('path'), 'z')])
         query = text('x=%41', [(4, f('query'), 'z')])
         sigb = text(sig, [(63, f('signature'), 'f' if sig[63] != 'f' else '0')])
+        if sig_variant == 'sig-long':
+            sigb = sigb + conc_bytes('0')
+        elif sig_variant == 'sig-short':
+            sigb = sigb[:63]
+        elif sig_variant == 'sig-empty':
+            sigb = []
         cred_s = AKID + '/' + SCOPE
         i0 = len(AKID) + 1
         # arity: too few parts (last '/' -> '_') or too many ('-' of the region -> '/'); both together give five parts again, with a foreign scope
@@ -179,6 +186,8 @@ class Defective:
             if few is False or more is False:
                 return zb(few if more is False else more)
             return znot(zb(few) == zb(more))
+        if name == 'signature' and self.sig_variant:
+            return True
         v = f.get(name, False)
         return zb(v) if v is not False else False
 
